@@ -317,17 +317,26 @@ class C08(Check):
                 knobs["raising_observer"] = {"on": on, "pos": f.randrange(2), "exc": f.choice(["ValueError", "KeyError", "RuntimeError", "AssertionError", "ZeroDivisionError", "ValueError", "SystemExit", "GeneratorExit", "CancelledError"])}
         ntx = k.choice([1, 2, 3, 4, 6, 8])
         long_voice = k.random() < 0.02
+        # counter-boundary runs: the first call on a slot has a total length around the 8-bit sequence wrap, followed by ordinary traffic
+        wrap_total = k.choice([254, 255, 256, 256, 257, 258, 511, 512, 513]) if k.random() < 0.04 else None
+        if wrap_total:
+            ntx = k.choice([2, 3])
         mix = {"voice": k.choice([0, 1, 2]), "voice_noterm": k.choice([0, 1]), "gen_data": k.choice([0, 1, 2]), "hand_data": k.choice([0, 1, 2]),
                "lone": k.choice([0, 1, 2, 3])}
         if sum(mix.values()) == 0:
             mix["lone"] = 1
         slot_streams = {}
         rx = None
-        for _ in range(ntx):
+        for txi in range(ntx):
             term, ts = w.choice(terms), w.choice([1, 1, 2])
             cc = w.randrange(16)
             kind = w.choices(list(mix), list(mix.values()))[0]
-            if kind == "voice":
+            if wrap_total:
+                term, ts = terms[0], 1
+                kind = "wrap" if txi == 0 else w.choice(["voice", "gen_data"])
+            if kind == "wrap":
+                bursts = air.voice_call_total(w, cc, wrap_total)
+            elif kind == "voice":
                 bursts = air.voice_call(w, cc, superframes=w.choice([50, 45]) if long_voice else None)
             elif kind == "voice_noterm":
                 bursts = air.voice_call(w, cc, terminator=False)
